@@ -199,6 +199,15 @@ namespace _ST_PRIVATE
         format_numeric_string(format, output, formatter.text(), formatter.size(), ntype);
     }
 
+    // An integer of any width as a code point: values that don't fit in an
+    // int can't be code points either, so they must not be narrowed into one
+    template <typename int_T>
+    inline int char_value(int_T value)
+    {
+        return (static_cast<unsigned long long>(value) > 0x10FFFFULL)
+                ? -1 : static_cast<int>(value);
+    }
+
     inline void format_char(const ST::format_spec &format,
                             ST::format_writer &output, int ch)
     {
